@@ -130,6 +130,82 @@ impl<T, N: ArrayLength> GenericArrayIter<T, N> {
             ('none', C6, 'self.remaining().len() == 0 ==> r.0.is_none()'),
             ('dropped', ['C03', 'C05'], 'r.1.array.ok() && r.1.array.all_dead()')],
            PROPS, selfname='this', pre='let mut this = self; let __ret = { ', post=' }; this.drop_impl(); (__ret, this)')
+
+    # ---- fold / rfold: the slice adapter's fold is the loop it is documented to be (rule R-iter), the closure body verbatim ----
+    def fold_like(impl, name, back):
+        f = g.extract_method('src/iter.rs', impl, name)
+        stats = {}
+        body = ex.normalize(f['body'])
+        n = ex.statements(body)
+        body = re.sub(r'\bself\b', 'this', body)
+        stats['R-mutself'] = 1
+        md = re.search(r'let GenericArrayIter \{ ([^}]*) \} = this;', body)
+        if not md:
+            raise ex.Unsupported('%s: destructuring of self not found (rule R-trait)' % name)
+        pre = ''
+        rest = body[:md.start()] + '@@D@@' + body[md.end():]
+        for fld in [x.strip() for x in md.group(1).split(',') if x.strip() and x.strip() != '..']:
+            mm = re.match(r'(ref mut |ref )?(\w+)$', fld)
+            if not mm:
+                raise ex.Unsupported('%s: field pattern %r' % (name, fld))
+            kind, x = mm.group(1), mm.group(2)
+            if kind == 'ref mut ':
+                rest = re.sub(r'\*' + x + r'\b', 'this.' + x, rest)
+            elif kind == 'ref ':
+                rest = re.sub(r'\b' + x + r'\.', 'this.' + x + '.', rest)
+            else:
+                pre += 'let %s = this.%s; ' % (x, x)
+        stats['R-trait'] = 1
+        body = rest.replace('@@D@@', pre)
+        body = ex.apply_rules(body, [
+            ('R-misc', r'\bunsafe \{', '{'),
+            ('R-view', r'this\.array\.get_unchecked\(\.\.([^()]+?)\)', r'this.array.range(0, \1)'),
+            ('R-view', r'this\.array\.get_unchecked\(([^.()]+(?:\.\w+)?)\s*\.\.\s*([^()]+?)\)', r'this.array.range(\1, \2)'),
+            ('R-forget', r'mem::forget\(this\);', 'this.array.forget();'),
+        ], stats)
+        ml = re.search(r'remaining\.iter\(\)\.' + name + r'\(init, \|acc, src\| \{ (.*?) f\(acc, value\) \}\)', body)
+        if not ml:
+            raise ex.Unsupported('%s: `remaining.iter().%s(init, |acc, src| {..; f(acc, value)})` not found (rule R-iter)' % (name, name))
+        inner = ml.group(1)
+        inner, k1 = re.subn(r'ptr::read\(src\)', 'this.array.take(src)', inner)
+        if k1 != 1:
+            raise ex.Unsupported('%s: closure does not read its element with ptr::read(src)' % name)
+        stats.update({'R-iter': 1, 'R-read': 1, 'R-foreign': 1})
+        src_expr = '(remaining.hi - 1 - __k)' if back else '(remaining.lo + __k)'
+        idx_inv = ('this.index == i0, this.index_back == b0 - __k,' if back else 'this.index == i0 + __k, this.index_back == b0,')
+        elem = 'rem0[rem0.len() - 1 - j]' if back else 'rem0[j]'
+        cur = 'rem0[rem0.len() - 1 - __k]' if back else 'rem0[__k as int]'
+        shrink = 'before.drop_last()' if back else 'before.drop_first()'
+        keep = ('forall|j: int| 0 <= j < __cnt - __k ==> this.remaining()[j] == rem0[j],' if back else
+                'forall|j: int| 0 <= j < __cnt - __k ==> this.remaining()[j] == rem0[__k + j],')
+        loop = ('{ let ghost rem0 = this.remaining(); let ghost i0 = this.index; let ghost b0 = this.index_back; '
+                'let __cnt = remaining.hi - remaining.lo; let mut acc = init; let mut __k: usize = 0; '
+                'while __k < __cnt invariant this.wf(), remaining.lo == i0, remaining.hi == b0, __cnt == rem0.len(), i0 + __cnt == b0, __k <= __cnt, '
+                + idx_inv + ' ' + keep +
+                ' f.log().len() == __k, forall|j: int| 0 <= j < __k ==> (#[trigger] f.log()[j]).1 == ' + elem + ', '
+                '__k == 0 ==> acc == init, __k > 0 ==> f.log()[0].0 == init && acc == f.log().last().2, '
+                'forall|j: int| 0 < j < __k ==> (#[trigger] f.log()[j]).0 == f.log()[j - 1].2, decreases __cnt - __k, { '
+                'let src = ' + src_expr + '; let ghost before = this.remaining(); '
+                + inner +
+                ' proof { assert(this.wf()) /*OB:%s.unwind@closure:C04*/; ' + ('assert(value == before[before.len() - 1]); ' if back else 'assert(value == before[0]); assert(before[0] == rem0[__k + 0]); ') + 'assert(value == %s); assert(this.remaining() =~= %s); } '
+                'acc = f.call(acc, value); __k += 1; } acc }') % (name, cur, shrink)
+        body = body[:ml.start()] + loop + body[ml.end():]
+        ex.check_supported(name, body)
+        LOG = 'final(f).log()'
+        REMS = 'self.remaining()'
+        arg = (REMS + '[' + REMS + '.len() - 1 - k]') if back else (REMS + '[k]')
+        from verus_engine import Fn
+        g.emit_fn(Fn(name, 'src/iter.rs', f['line'], f['sig'], 'fn %s<B, F: Foreign2<B, T, B>>(self, init: B, f: &mut F) -> (ret: B)' % name, 'let mut this = self; ' + body,
+                     ['self.wf()', 'old(f).log().len() == 0'],
+                     [('once-per-element', ['C06', 'C03'], LOG + '.len() == ' + REMS + '.len()'),
+                      ('in-order', ['C06'], 'forall|k: int| 0 <= k < ' + REMS + '.len() ==> (#[trigger] ' + LOG + '[k]).1 == ' + arg),
+                      ('empty-returns-init', ['C06'], REMS + '.len() == 0 ==> ret == init'),
+                      ('threads-accumulator', ['C06'], REMS + '.len() > 0 ==> ' + LOG + '[0].0 == init && ret == ' + LOG + '.last().2'),
+                      ('threads-accumulator-step', ['C06'], 'forall|k: int| 0 < k < ' + REMS + '.len() ==> (#[trigger] ' + LOG + '[k]).0 == ' + LOG + '[k - 1].2')],
+                     stats, n, PROPS))
+
+    fold_like(IT, 'fold', False)
+    fold_like(DEI, 'rfold', True)
     g.raw('}\n')
 
     # ---- clone: needs T: Clone -> ForeignClone ----
